@@ -178,6 +178,27 @@ type c19Meta struct {
 
 var c19Known = map[string]any{"x-meta": map[string]string{}, "x-owner": &c19Meta{}, "x-plain": c19Meta{}}
 
+// c19Copy copies a fixture's directory to dir (new file names for the same contents).
+func c19Copy(f c19Fixture, dir string) c19Fixture {
+	_ = filepath.Walk(f.Dir, func(p string, info os.FileInfo, err error) error {
+		if err != nil {
+			return nil
+		}
+		rel, _ := filepath.Rel(f.Dir, p)
+		if info.IsDir() {
+			return os.MkdirAll(filepath.Join(dir, rel), 0o755)
+		}
+		b, err := os.ReadFile(p)
+		if err != nil {
+			return nil
+		}
+		return os.WriteFile(filepath.Join(dir, rel), b, 0o644)
+	})
+	g := f
+	g.Dir = dir
+	return g
+}
+
 func c19LoadDigest(f c19Fixture) string {
 	var cfs []types.ConfigFile
 	for _, n := range f.Files {
@@ -295,6 +316,33 @@ func c19Worker(args []string) int {
 				}
 				close(start)
 				wg.Wait()
+				// every fourth round also on fresh copies of the inputs, under file names no load has seen before: each
+				// goroutine loads its own copy first concurrently, the copy is loaded alone afterwards for comparison
+				if round%4 == 0 {
+					copies := make([]c19Fixture, len(t.Inputs))
+					conc := make([]string, len(t.Inputs))
+					for g, fi := range t.Inputs {
+						copies[g] = c19Copy(job.Fixtures[fi], fmt.Sprintf("%s-fresh-%d-%d-%d-%d", job.Fixtures[fi].Dir, os.Getpid(), i, round, g))
+					}
+					var wg2 sync.WaitGroup
+					start2 := make(chan struct{})
+					for g := range t.Inputs {
+						wg2.Add(1)
+						go func(g int) {
+							defer wg2.Done()
+							<-start2
+							conc[g] = c19LoadDigest(copies[g])
+						}(g)
+					}
+					close(start2)
+					wg2.Wait()
+					for g := range t.Inputs {
+						if alone := c19LoadDigest(copies[g]); alone != conc[g] {
+							viol = append(viol, fmt.Sprintf("concurrent-result-differs: a fresh copy of input %s loaded concurrently gives %s, alone %s", copies[g].Name, conc[g], alone))
+						}
+						_ = os.RemoveAll(copies[g].Dir)
+					}
+				}
 			}
 			results[i] = c19TaskResult{Violations: viol}
 		}
